@@ -135,13 +135,146 @@ func cutOffsets(e *enc) []int {
 	return out
 }
 
+// ---- non-termination budget ---------------------------------------------------------------
+//
+// A decode that does not terminate costs cpuLimit of CPU before it is a verdict. A tree that
+// breaks termination in a shared routine would make thousands of decodes spin; the verdict
+// is reached after the first few, the rest would only burn the budget. Rules (all of them
+// act only after a non-terminating decode, i.e. never on a tree that holds the property; all
+// skipped work is counted in the evidence):
+//   - (decoder, field) class: after one hung decode the class is not run again;
+//   - decoder: after ntDecoderLimit hung decodes no further decode of that decoder;
+//   - process: after ntFullPrice non-terminating decodes (each a verdict) every further hung
+//     decode is abandoned at cpuAbandon of CPU ("abandoned": counted, neither a violation nor
+//     an evaluation); after ntHungMax hung decodes in all the rest of the corpus is not
+//     evaluated by this process;
+//   - connection mode: after netNTLimit hung scenarios the pass is over for the process.
+//
+// "hung" = non-terminating (cpuLimit reached) or abandoned (cpuAbandon reached).
+const (
+	ntFullPrice    = 2
+	ntHungMax      = 12
+	ntDecoderLimit = 3
+	netNTLimit     = 2
+)
+
+var (
+	ntPaid      int // decodes that cost a full cpuLimit in this process
+	ntHung      int // ntPaid + abandoned decodes
+	ntByDecoder = map[string]int{}
+	netNT       int
+)
+
+func cpuBudget() time.Duration {
+	if ntPaid >= ntFullPrice {
+		return cpuAbandon
+	}
+	return cpuLimit
+}
+
+// classes that already cost a CPU budget in this process are not run again
+var expensive = map[string]int{}
+
+func decoderSpent(d *decoder) bool { return ntByDecoder[d.Name] >= ntDecoderLimit }
+
+// died handles the death of the server on one decode: cls is the (decoder, field) class for
+// the skip rules, suffix/where make the finding key, what describes the decode.
+func died(id string, d *decoder, dt *death, cls, suffix, where, what string, detail func(extra map[string]interface{}) func() map[string]interface{}) {
+	switch dt.Kind {
+	case "fatal":
+		c.Count("process_fatal_decodes", 1)
+		costly[cls]++
+		fail(d.Name+":fatal"+suffix+"@"+where, fmt.Sprintf("%s ended the process: %s", what, dt.Reason), detail(map[string]interface{}{"stderr": dt.Stderr}))
+	case "nonterminating":
+		expensive[cls]++
+		ntByDecoder[d.Name]++
+		ntHung++
+		c.Count("nonterminating_decodes", 1)
+		fail(d.Name+":nonterminating"+suffix+"@"+where, fmt.Sprintf("%s: %s", what, dt.Reason), detail(nil))
+	case "abandoned":
+		expensive[cls]++
+		ntByDecoder[d.Name]++
+		ntHung++
+		c.Count("decodes_abandoned_after_nonterminating_budget", 1)
+	default:
+		c.Inconclusive(id, dt.Kind+": "+dt.Reason)
+	}
+}
+
+// answeredLate: the decode did return, but only after more than cpuLimit of CPU
+func answeredLate(d *decoder, cls string) {
+	expensive[cls]++
+	ntByDecoder[d.Name]++
+	ntPaid++
+	ntHung++
+	c.Count("nonterminating_decodes", 1)
+}
+
 func truncation(id string, e *enc) {
 	d := &decoders[e.Dec]
 	cuts := cutOffsets(e)
-	var panicked, kend int64
-	for _, k := range cuts {
-		o := runDecode(d, false, e.B[:k])
-		if o.Panicked {
+	if decoderSpent(d) {
+		c.Count("truncation_points_skipped_decoder_nonterminating", int64(len(cuts)))
+		return
+	}
+	if len(expensive) > 0 {
+		keep := cuts[:0:0]
+		for _, k := range cuts {
+			if expensive[d.Name+"|cut-in-"+fieldAt(e.Fields, k)] >= 1 {
+				c.Count("truncation_points_skipped_after_nonterminating_same_field", 1)
+				continue
+			}
+			keep = append(keep, k)
+		}
+		cuts = keep
+	}
+	if len(cuts) == 0 {
+		return
+	}
+	out, err := runBatch(&srv, c.Out, []req{{dec: e.Dec, mode: modeTrunc, b: e.B, cuts: cuts, maxDeaths: 3}})
+	if err != nil {
+		c.Inconclusive(id, "decode server could not be started: "+err.Error())
+		return
+	}
+	var panicked, kend, done int64
+	for j, rs := range out[0] {
+		k := cuts[j]
+		if rs.skipped {
+			c.Count("truncation_points_skipped_after_server_deaths", 1)
+			continue
+		}
+		detail := func(extra map[string]interface{}) func() map[string]interface{} {
+			return func() map[string]interface{} {
+				x := map[string]interface{}{"decoder": d.Name, "family": e.Family, "case": id, "cut_offset": k, "encoding_len": len(e.B),
+					"cut_in": fieldAt(e.Fields, k), "prefix_hex": hexCap(e.B[:k], 2048), "encoding_hex": hexCap(e.B, 2048)}
+				for kk, v := range extra {
+					x[kk] = v
+				}
+				return x
+			}
+		}
+		if rs.died != nil {
+			where := "cut-in-" + fieldAt(e.Fields, k)
+			died(id, d, rs.died, d.Name+"|"+where, "", where,
+				fmt.Sprintf("decoding the first %d of %d bytes of a valid encoding (cut falls in %s)", k, len(e.B), fieldAt(e.Fields, k)), detail)
+			done++
+			continue
+		}
+		done++
+		c.Max("max_cpu_ms_one_decode", rs.m.CPU.Milliseconds())
+		if bound := uint64(allocSlope*k + allocConst); rs.m.Alloc > bound {
+			where := "cut-in-" + fieldAt(e.Fields, k)
+			c.Count("alloc_bound_exceeded", 1)
+			fail(d.Name+":alloc-from-count@"+where,
+				fmt.Sprintf("decoding the first %d of %d bytes of a valid encoding allocated %d bytes (bound 64·len+1 MiB = %d)", k, len(e.B), rs.m.Alloc, bound),
+				detail(map[string]interface{}{"allocated": rs.m.Alloc, "bound": bound, "panicked": rs.m.Panicked}))
+		}
+		if rs.m.CPU > cpuLimit {
+			where := "cut-in-" + fieldAt(e.Fields, k)
+			answeredLate(d, d.Name+"|"+where)
+			fail(d.Name+":nonterminating@"+where, fmt.Sprintf("decoding the first %d of %d bytes of a valid encoding consumed %v of CPU", k, len(e.B), rs.m.CPU), detail(nil))
+		}
+		if rs.m.Panicked {
 			panicked++
 			continue
 		}
@@ -151,25 +284,142 @@ func truncation(id string, e *enc) {
 			continue
 		}
 		where := fieldAt(e.Fields, k)
-		key := d.Name + ":prefix-accepted@" + where
-		k := k
-		fail(key, fmt.Sprintf("%s returned an object for the first %d of %d bytes of a valid encoding (cut falls in %s) instead of failing", d.Name, k, len(e.B), where),
-			func() map[string]interface{} {
-				return map[string]interface{}{"decoder": d.Name, "family": e.Family, "case": id, "cut_offset": k, "encoding_len": len(e.B),
-					"cut_in": where, "prefix_hex": hexCap(e.B[:k], 2048), "encoding_hex": hexCap(e.B, 2048)}
-			})
+		fail(d.Name+":prefix-accepted@"+where, fmt.Sprintf("%s returned an object for the first %d of %d bytes of a valid encoding (cut falls in %s) instead of failing", d.Name, k, len(e.B), where), detail(nil))
 		c.Count("trunc_accepted", 1)
 	}
-	c.Count("truncation_points", int64(len(cuts)))
+	c.Count("truncation_points", done)
 	c.Count("trunc_panicked", panicked)
 	c.Count("trunc_older_version_exceptions", kend)
-	c.DistinctEnum(int64(len(cuts)))
-	c.Eval(int64(len(cuts)))
+	c.DistinctEnum(done)
+	c.Eval(done)
 	if len(e.B) <= smallFull {
 		c.Count("encodings_every_prefix", 1)
 	} else {
 		c.Count("encodings_sampled_prefixes", 1)
 	}
+}
+
+// ---- connection mode (net.go) -----------------------------------------------------------
+
+const netCuts = 16
+
+func netScenarios(e *enc, r *vlib.Rand) []netScen {
+	n := len(e.B)
+	var out []netScen
+	add := func(k int) { out = append(out, netScen{cut: k, frag: r.U32(), end: byte(r.Intn(2))}) }
+	if n <= netCuts {
+		for k := 0; k < n; k++ {
+			add(k)
+		}
+	} else {
+		// half of the cuts strictly inside a multi-byte field-map entry, half anywhere
+		var wide []refcodec.Field
+		for _, f := range e.Fields {
+			if f.Width >= 2 && f.Off+f.Width <= n {
+				wide = append(wide, f)
+			}
+		}
+		for i := 0; i < netCuts; i++ {
+			if i%2 == 0 && len(wide) > 0 {
+				f := wide[r.Intn(len(wide))]
+				add(f.Off + 1 + r.Intn(f.Width-1))
+			} else {
+				add(r.Intn(n))
+			}
+		}
+	}
+	// the complete encoding, fragmented, both endings
+	out = append(out, netScen{cut: n, frag: r.U32(), end: netEndStall}, netScen{cut: n, frag: r.U32(), end: netEndClose})
+	return out
+}
+
+func netPass(id string, e *enc, r *vlib.Rand) {
+	d := &decoders[e.Dec]
+	if d.NoNet {
+		return
+	}
+	scen := netScenarios(e, r)
+	if netNT >= netNTLimit || decoderSpent(d) {
+		c.Count("net_scenarios_skipped_after_nonterminating", int64(len(scen)))
+		return
+	}
+	out, err := runBatch(&srv, c.Out, []req{{dec: e.Dec, mode: modeNet, b: e.B, scen: scen, maxDeaths: 2}})
+	if err != nil {
+		c.Inconclusive(id, "decode server could not be started: "+err.Error())
+		return
+	}
+	var done int64
+	for j, rs := range out[0] {
+		sc := scen[j]
+		if rs.skipped {
+			c.Count("net_scenarios_skipped_after_server_deaths", 1)
+			continue
+		}
+		where := "complete"
+		if sc.cut < len(e.B) {
+			where = fieldAt(e.Fields, sc.cut)
+		}
+		what := fmt.Sprintf("decoding from a connection that delivered the first %d of %d bytes of a valid encoding (cut falls in %s; %s)", sc.cut, len(e.B), where, sc.endName())
+		detail := func(extra map[string]interface{}) func() map[string]interface{} {
+			return func() map[string]interface{} {
+				x := map[string]interface{}{"decoder": d.Name, "family": e.Family, "case": id, "mode": "connection (io.NewDataInputNet over net.Pipe)",
+					"delivered_bytes": sc.cut, "encoding_len": len(e.B), "cut_in": where, "then": sc.endName(),
+					"fragment_sizes": capInts(fragSizes(sc.frag, sc.cut), 64), "delivered_hex": hexCap(e.B[:sc.cut], 2048), "encoding_hex": hexCap(e.B, 2048)}
+				for kk, v := range extra {
+					x[kk] = v
+				}
+				return x
+			}
+		}
+		done++
+		c.SetAdd("net_decoders_covered", d.Name)
+		if rs.died != nil {
+			if rs.died.Kind == "nonterminating" || rs.died.Kind == "abandoned" {
+				netNT++
+			}
+			died(id, d, rs.died, d.Name+"|net|"+where, "/net-mode", where, what, detail)
+			continue
+		}
+		c.Max("max_cpu_ms_one_decode", rs.m.CPU.Milliseconds())
+		if rs.m.CPU > cpuLimit {
+			netNT++
+			answeredLate(d, d.Name+"|net|"+where)
+			fail(d.Name+":nonterminating/net-mode@"+where, fmt.Sprintf("%s consumed %v of CPU", what, rs.m.CPU), detail(nil))
+		}
+		switch {
+		case sc.cut == len(e.B) && rs.m.Panicked:
+			// not judged here (a complete message that fails over a connection is C02's subject)
+			c.Count("net_complete_panicked", 1)
+			c.SetAdd("net_complete_panicked_decoders", d.Name)
+		case sc.cut == len(e.B):
+			c.Count("net_complete_returned", 1)
+		case rs.m.Panicked:
+			c.Count("net_prefix_panicked", 1)
+			if sc.end == netEndClose {
+				c.Count("net_prefix_then_close", 1)
+			} else {
+				c.Count("net_prefix_then_deadline", 1)
+			}
+		default:
+			if name, ok := endAt(e.Fields, sc.cut); ok {
+				c.Count("net_older_version_exceptions", 1)
+				c.SetAdd("older_version_ends_accepted", d.Name+"@"+name)
+				break
+			}
+			c.Count("net_prefix_accepted", 1)
+			fail(d.Name+":prefix-accepted/net-mode@"+where, fmt.Sprintf("%s returned an object instead of failing", what), detail(nil))
+		}
+	}
+	c.Count("net_scenarios", done)
+	c.DistinctEnum(done)
+	c.Eval(done)
+}
+
+func capInts(v []int, max int) []int {
+	if len(v) > max {
+		return v[:max]
+	}
+	return v
 }
 
 // ---- fault space 2 ----------------------------------------------------------------------
@@ -268,6 +518,9 @@ func mutantsOf(b []byte, f refcodec.Field, isDecimalCount bool) []mutant {
 		for _, v := range []uint64{0, 1, 0x10000, 0x7fffff00, 0x7fffffff, 0x80000000, 0xffffffff} {
 			add(fmt.Sprintf("blob prefix 254+0x%08x", v), w, append([]byte{254}, be(4, v)...))
 		}
+		for _, v := range near31(f.Off + 5) {
+			add(fmt.Sprintf("blob prefix 254+0x%08x", v), w, append([]byte{254}, be(4, v)...))
+		}
 		// marker only: the bytes that follow become the length
 		add("blob marker 254 over the first byte", 1, []byte{254})
 		add("blob marker 255 over the first byte", 1, []byte{255})
@@ -295,11 +548,24 @@ func mutantsOf(b []byte, f refcodec.Field, isDecimalCount bool) []mutant {
 		}
 		if w >= 4 {
 			vals = append(vals, 1<<31-1, 1<<31, 0x7fffff00, 65536)
+			vals = append(vals, near31(f.Off+w)...)
 		}
 		if w >= 8 {
 			vals = append(vals, 1<<62)
 		}
 		raw(vals...)
+	}
+	return out
+}
+
+// near31: lengths just below 2^31 for a 4-byte length field whose payload starts at read
+// position pos (> 0): 2^31−2 … 2^31−9 and the values around 2^31−pos, where position + length
+// crosses 2^31 (a bound check done in 32-bit position arithmetic wraps exactly there;
+// 2^31−1 itself is in every list).
+func near31(pos int) []uint64 {
+	out := []uint64{1<<31 - 2, 1<<31 - 3, 1<<31 - 5, 1<<31 - 9}
+	if pos > 9 && pos < 1<<30 {
+		out = append(out, 1<<31-uint64(pos)-1, 1<<31-uint64(pos), 1<<31-uint64(pos)+1)
 	}
 	return out
 }
@@ -362,9 +628,6 @@ func corruptions(e *enc, r *vlib.Rand) []mutant {
 
 var srv *server
 
-// classes that already cost a 20 s CPU budget in this process are not run again
-var expensive = map[string]int{}
-
 // (decoder, field) pairs that were fatal or allocated beyond the bound, with their count
 var costly = map[string]int{}
 
@@ -399,7 +662,7 @@ func hostileChunk(id string, e *enc, d *decoder, muts []mutant, pPanicked, pRetu
 	var idx []int
 	for i, m := range muts {
 		cls := d.Name + "|" + m.where
-		if expensive[cls] >= 1 {
+		if expensive[cls] >= 1 || decoderSpent(d) {
 			c.Count("corruptions_skipped_after_nonterminating_same_field", 1)
 			continue
 		}
@@ -410,7 +673,7 @@ func hostileChunk(id string, e *enc, d *decoder, muts []mutant, pPanicked, pRetu
 			c.Count("corruptions_skipped_field_already_violating", 1)
 			continue
 		}
-		reqs = append(reqs, req{e.Dec, m.bytes(e.B)})
+		reqs = append(reqs, req{dec: e.Dec, mode: modeHostile, b: m.bytes(e.B)})
 		idx = append(idx, i)
 	}
 	if len(reqs) == 0 {
@@ -422,10 +685,12 @@ func hostileChunk(id string, e *enc, d *decoder, muts []mutant, pPanicked, pRetu
 		return
 	}
 	*pDone += int64(len(results))
-	for j, rs := range results {
+	for j := range results {
+		rs := results[j][0]
 		m := muts[idx[j]]
 		mb := reqs[j].b
-		c.SetAdd("corruption_pairs", d.Name+"|"+m.where)
+		cls := d.Name + "|" + m.where
+		c.SetAdd("corruption_pairs", cls)
 		detail := func(extra map[string]interface{}) func() map[string]interface{} {
 			return func() map[string]interface{} {
 				x := map[string]interface{}{"decoder": d.Name, "family": e.Family, "case": id, "field": m.where, "hostile_value": m.what,
@@ -437,18 +702,7 @@ func hostileChunk(id string, e *enc, d *decoder, muts []mutant, pPanicked, pRetu
 			}
 		}
 		if rs.died != nil {
-			switch rs.died.Kind {
-			case "fatal":
-				c.Count("process_fatal_decodes", 1)
-				costly[d.Name+"|"+m.where]++
-				fail(d.Name+":fatal@"+m.where, fmt.Sprintf("decoding a %d-byte input with a hostile %s (%s) ended the process: %s", len(mb), m.where, m.what, rs.died.Reason),
-					detail(map[string]interface{}{"stderr": rs.died.Stderr}))
-			case "nonterminating":
-				expensive[d.Name+"|"+m.where]++
-				fail(d.Name+":nonterminating@"+m.where, fmt.Sprintf("decoding a %d-byte input with a hostile %s (%s): %s", len(mb), m.where, m.what, rs.died.Reason), detail(nil))
-			default:
-				c.Inconclusive(id, rs.died.Kind+": "+rs.died.Reason)
-			}
+			died(id, d, rs.died, cls, "", m.where, fmt.Sprintf("decoding a %d-byte input with a hostile %s (%s)", len(mb), m.where, m.what), detail)
 			continue
 		}
 		if rs.m.Panicked {
@@ -462,13 +716,13 @@ func hostileChunk(id string, e *enc, d *decoder, muts []mutant, pPanicked, pRetu
 		c.Max("max_cpu_ms_one_decode", rs.m.CPU.Milliseconds())
 		if rs.m.Alloc > bound {
 			c.Count("alloc_bound_exceeded", 1)
-			costly[d.Name+"|"+m.where]++
+			costly[cls]++
 			fail(d.Name+":alloc-from-count@"+m.where,
 				fmt.Sprintf("decoding a %d-byte input with a hostile %s (%s) allocated %d bytes (bound 64·len+1 MiB = %d)", len(mb), m.where, m.what, rs.m.Alloc, bound),
 				detail(map[string]interface{}{"allocated": rs.m.Alloc, "bound": bound, "panicked": rs.m.Panicked}))
 		}
 		if rs.m.CPU > cpuLimit {
-			expensive[d.Name+"|"+m.where]++
+			answeredLate(d, cls)
 			fail(d.Name+":nonterminating@"+m.where, fmt.Sprintf("decoding a %d-byte input with a hostile %s (%s) consumed %v of CPU", len(mb), m.where, m.what, rs.m.CPU), detail(nil))
 		}
 	}
@@ -476,18 +730,60 @@ func hostileChunk(id string, e *enc, d *decoder, muts []mutant, pPanicked, pRetu
 
 // ---- corpus admission ---------------------------------------------------------------------
 
+// admit: the reference encoding enters the corpus when the decoder under test accepts it.
+// For the families whose layout golib's own writer and reader disagree about (e.Alt: both
+// forms are generated) it must also be consumed completely — that is how the form the reader
+// defines is told from the other. Everywhere else the reference encoding IS the valid
+// encoding: a decoder that returns with bytes left over has accepted a strict prefix of it,
+// and the truncation pass that follows reports exactly that prefix.
 func admit(id string, e *enc) bool {
 	d := &decoders[e.Dec]
 	if len(e.B) == 0 || len(e.B) > maxEnc {
 		c.Count("corpus_skipped_size", 1)
 		return false
 	}
-	o := runDecode(d, false, e.B)
-	if o.Panicked || !o.Consumed {
-		// the reference encoding is not what this decoder reads completely: not a valid
-		// encoding for C04's purposes (writer/reader disagreements belong to C03/C05)
+	if decoderSpent(d) {
+		c.Count("encodings_skipped_decoder_nonterminating", 1)
+		return false
+	}
+	out, err := runBatch(&srv, c.Out, []req{{dec: e.Dec, mode: modeAdmit, b: e.B}})
+	if err != nil {
+		c.Inconclusive(id, "decode server could not be started: "+err.Error())
+		return false
+	}
+	rs := out[0][0]
+	detail := func(extra map[string]interface{}) func() map[string]interface{} {
+		return func() map[string]interface{} {
+			x := map[string]interface{}{"decoder": d.Name, "family": e.Family, "case": id, "encoding_len": len(e.B), "encoding_hex": hexCap(e.B, 2048)}
+			for k, v := range extra {
+				x[k] = v
+			}
+			return x
+		}
+	}
+	if rs.died != nil {
+		died(id, d, rs.died, d.Name+"|valid-encoding", "", "valid-encoding", fmt.Sprintf("decoding a valid %d-byte encoding", len(e.B)), detail)
+		return false
+	}
+	if rs.m.Panicked || (e.Alt && !rs.m.Consumed) {
+		// the reference encoding is not what this decoder reads: not a valid encoding for
+		// C04's purposes (writer/reader disagreements belong to C03/C05)
 		c.Count("corpus_not_admitted", 1)
 		c.SetAdd("not_admitted_families", e.Family)
+		return false
+	}
+	if !rs.m.Consumed {
+		c.Count("encodings_returned_with_unread_bytes", 1)
+		c.SetAdd("unread_bytes_families", e.Family)
+	}
+	if bound := uint64(allocSlope*len(e.B) + allocConst); rs.m.Alloc > bound {
+		c.Count("alloc_bound_exceeded", 1)
+		fail(d.Name+":alloc-from-count@valid-encoding", fmt.Sprintf("decoding a valid %d-byte encoding allocated %d bytes (bound 64·len+1 MiB = %d)", len(e.B), rs.m.Alloc, bound),
+			detail(map[string]interface{}{"allocated": rs.m.Alloc, "bound": bound}))
+	}
+	if rs.m.CPU > cpuLimit {
+		answeredLate(d, d.Name+"|valid-encoding")
+		fail(d.Name+":nonterminating@valid-encoding", fmt.Sprintf("decoding a valid %d-byte encoding consumed %v of CPU", len(e.B), rs.m.CPU), detail(nil))
 		return false
 	}
 	if e.Golib != nil {
@@ -514,13 +810,19 @@ func main() {
 		f := families[i%len(families)]
 		var e *enc
 		for try := 0; try < 6; try++ {
+			altForm = false
 			e = f.Gen(r)
 			if len(e.B) <= maxEnc {
 				break
 			}
 		}
 		e.Family = f.Name
+		e.Alt = altForm
 		id := fmt.Sprintf("enc#%d", i)
+		if ntHung >= ntHungMax {
+			c.Count("encodings_skipped_process_nonterminating_budget", 1)
+			return
+		}
 		if !admit(id, e) {
 			return
 		}
@@ -542,9 +844,13 @@ func main() {
 		t0 := time.Now()
 		truncation(id, e)
 		t1 := time.Now()
-		hostile(id, e, r.Fork("hostile"))
+		rh := r.Fork("hostile")
+		rn := r.Fork("net")
+		netPass(id, e, rn)
+		t2 := time.Now()
+		hostile(id, e, rh)
 		if dbg {
-			fmt.Fprintf(os.Stderr, "DBG %s %s len=%d fields=%d trunc=%v hostile=%v servers=%d\n", id, f.Name, len(e.B), len(e.Fields), t1.Sub(t0), time.Since(t1), serverSeq)
+			fmt.Fprintf(os.Stderr, "DBG %s %s len=%d fields=%d trunc=%v net=%v hostile=%v servers=%d\n", id, f.Name, len(e.B), len(e.Fields), t1.Sub(t0), t2.Sub(t1), time.Since(t2), serverSeq)
 		}
 
 		if !sampledFam[f.Name] && c.WantSample() && len(e.B) <= 160 && i%7 == 3 {
@@ -558,10 +864,12 @@ func main() {
 	}
 	c.Exhaustive("every strict prefix of every corpus encoding ≤ 4 KiB")
 	c.Exhaustive("every listed hostile value at every length/count/tag/version/decimal-class entry of the field map (field maps with more than 240 such entries: first 80, last 80 and 80 drawn)")
+	c.Exhaustive("connection mode: every strict prefix of every corpus encoding ≤ 16 bytes, each with one drawn fragmentation and ending")
 	c.Exhaustive("six hostile byte values at every byte position of every corpus encoding ≤ 256 bytes")
 	per := int64(n / c.NShards)
 	c.Floor("encodings", per/10, c.Counter("encodings"))
 	c.Floor("truncation_points", per*10, c.Counter("truncation_points"))
 	c.Floor("corruptions", per*30, c.Counter("corruptions"))
+	c.Floor("net_scenarios", per, c.Counter("net_scenarios"))
 	c.Finish()
 }
